@@ -53,7 +53,7 @@ def inject_rejects(rng, prog):
             ncreated += 1
         if s['op'] in ('lf',) or rng.random() > 0.35 or 'lf' not in s:
             continue
-        kind = rng.choice(['bad_attr', 'bad_attr', 'bad_name', 'bad_origin', 'dup_dataset', 'bad_cast', 'bad_data', 'bad_frame', 'bad_enum', 'same_name'])
+        kind = rng.choice(['bad_attr', 'bad_attr', 'bad_name', 'bad_origin', 'dup_dataset', 'bad_cast', 'bad_data', 'bad_frame', 'bad_enum', 'same_name', 'bad_origin_op'])
         lf = s['lf']
         tkey = rng.choice(specgen.SET_KINDS)
         name = R.r_str(rng.choice(['Z', 'A', 'OBJ', 'X-1']))
@@ -86,6 +86,9 @@ def inject_rejects(rng, prog):
             new = {'op': 'frame', 'lf': lf, 'name': R.r_str('BADFRAME'), 'set_name': None, 'origin': None, 'kw': {},
                    'channels': rng.choice([R.r_list([]), R.r_str('x'), R.r_list([R.r_int(3)]),
                                            R.r_list([R.r_ref(rng.randrange(ncreated))]) if ncreated else R.r_list([])])}
+        elif kind == 'bad_origin_op':
+            new = {'op': 'origin', 'lf': lf, 'name': R.r_str('REJECTED-ORIGIN'), 'set_name': None, 'origin': R.r_int(rng.choice([7, 3, 40])), '_fh_id': 'x',
+                   'kw': {'file_set_number': R.r_int(2), 'creation_time': R.r_str('not a date')}}
         else:   # same_name: a valid object repeating a name (copy numbers)
             new = {'op': 'add', 'lf': lf, 'type': tkey, 'name': name, 'set_name': None, 'origin': None, 'kw': {}}
         out.append(new)
@@ -135,8 +138,11 @@ def add_queries(rng, prog):
 
 
 def gen_program(rng, flavor=None, vrl=None):
-    flavor = flavor or rng.choice(['valid', 'valid', 'rejects', 'rejects', 'assign', 'queries', 'mixed'])
+    flavor = flavor or rng.choice(['valid', 'valid', 'rejects', 'rejects', 'assign', 'queries', 'mixed', 'rewrite'])
     prog, spec = base_program(rng, vrl=vrl or rng.choice([128, 1024, 8192]))
+    for s0 in prog:
+        if s0['op'] == 'origin':
+            s0['_fh_id'] = spec['lfs'][0]['fh_id']
     if flavor in ('rejects', 'mixed'):
         prog = inject_rejects(rng, prog)
     if flavor in ('assign', 'mixed'):
@@ -144,6 +150,11 @@ def gen_program(rng, flavor=None, vrl=None):
     if flavor in ('queries', 'mixed'):
         prog = add_queries(rng, prog)
     prog.append({'op': 'write'})
+    if flavor == 'rewrite':
+        # assign other kinds of values after the first write, then write the same DLISFile again
+        tail = add_assignments(rng, [s for s in prog if s['op'] != 'write'])
+        extra = [s for s in tail if s['op'] == 'assign'][:6]
+        prog += extra + [{'op': 'write'}]
     return prog, flavor
 
 
@@ -356,3 +367,69 @@ def gen_history(rng, n_files=None):
         if rng.random() < 0.3:
             prog.append({'op': 'write'})      # write the same DLISFile again
     return prog
+
+
+def reject_kinds(tkey):
+    """Keyword arguments that make add_<tkey> raise AFTER the item registered itself (bad attribute values)."""
+    A = specgen.api()[tkey]
+    out = []
+    for p, an in A['params'].items():
+        if an is None or an not in A['attrs']:
+            continue
+        cls = A['attrs'][an]['cls']
+        if cls == 'TextAttribute':
+            out.append({p: R.r_int(5)})
+        elif cls in ('NumericAttribute', 'DimensionAttribute'):
+            out.append({p: R.r_str('not a number')})
+        elif cls == 'StatusAttribute':
+            out.append({p: R.r_int(7)})
+        elif cls in ('EFLRAttribute', 'EFLROrTextAttribute'):
+            out.append({p: R.r_int(3) if not A['attrs'][an]['mv'] else R.r_list([R.r_int(3)])})
+        elif cls == 'DTimeAttribute':
+            out.append({p: R.r_str('yesterday')})
+        elif cls == 'PropertiesAttribute':
+            out.append({p: R.r_list([R.r_str('NOT-A-PROPERTY')])})
+        elif cls == 'IdentAttribute' and A['attrs'][an]['has_converter'] and an in ('domain', 'phase', 'status'):
+            out.append({p: R.r_str('NOT-A-MEMBER')})
+    return out
+
+
+def gen_sandwich(rng, tkey=None, inner=None):
+    """accepted N, rejected N (after registration), accepted N ... in ONE set, then channels / frame and a write; also a
+    rejected add_channel carrying data followed by an accepted channel of that name without data."""
+    tkey = tkey or rng.choice(specgen.SET_KINDS)
+    kinds = reject_kinds(tkey) or [None]
+    bad = rng.choice(kinds) if inner is None else inner
+    nm = R.r_str(rng.choice(['N', 'ZONE-1', 'A']))
+    sn = rng.choice([None, None, 'S1'])
+    prog = [{'op': 'newfile', 'ident': 'MAIN-STORAGE-UNIT', 'seq': 1, 'vrl': 8192},
+            {'op': 'lf', 'fh_id': R.r_str('H'), 'fh_seq': R.r_int(1)},
+            {'op': 'origin', 'lf': 0, 'name': R.r_str('O'), 'set_name': None, 'origin': None, '_fh_id': 'H',
+             'kw': {'file_set_number': R.r_int(1), 'creation_time': R.r_str('2020/01/01 00:00:00')}}]
+    pattern = rng.choice(['ARA', 'ARARA', 'RA', 'AARA', 'ARRA'])
+    for c in pattern:
+        step = {'op': 'add', 'lf': 0, 'type': tkey, 'name': nm, 'set_name': sn, 'origin': None, 'kw': {}}
+        if c == 'R':
+            if bad is None:
+                step['name'] = R.r_int(3)
+            else:
+                step['kw'] = copy.deepcopy(bad)
+        prog.append(step)
+    ncreated = 1 + len(pattern)
+    # channels: a rejected one carrying data, then (sometimes) an accepted one of the same name without data
+    rej_ch = {'op': 'channel', 'lf': 0, 'name': R.r_str('CH'), 'set_name': None, 'origin': None,
+              'kw': {rng.choice(['minimum_value', 'maximum_value']): R.r_str('x')},
+              'data': {'dtype': 'float64', 'rows': 3, 'width': None, 'seed': 5}}
+    if rng.random() < 0.5:
+        rej_ch['cast'] = 'bad'
+        rej_ch['kw'] = {}
+    prog.append(rej_ch)
+    ncreated += 1
+    second_has_data = rng.random() < 0.5
+    prog.append({'op': 'channel', 'lf': 0, 'name': R.r_str('CH'), 'set_name': None, 'origin': None, 'kw': {},
+                 'data': {'dtype': 'float64', 'rows': 3, 'width': None, 'seed': 9} if second_has_data else None})
+    ch = ncreated
+    ncreated += 1
+    prog.append({'op': 'frame', 'lf': 0, 'name': R.r_str('F'), 'set_name': None, 'origin': None, 'kw': {}, 'channels': R.r_list([R.r_ref(ch)])})
+    prog.append({'op': 'write'})
+    return prog, (tkey, pattern)
